@@ -90,6 +90,12 @@ func kCatalogue() [][]byte {
 		k[bit/8] = 1 << uint(bit%8)
 		ks = append(ks, k)
 	}
+	return ks
+}
+
+// groupScalars: see the comment inside.
+func groupScalars() [][]byte {
+	var ks [][]byte
 	// scalars that are special with respect to the GROUP rather than to their bit pattern: clamped values jL + e (a
 	// multiple of 8 in [2^254, 2^255), so j = 4..7) act on the base point like the small integer e: e = -1 and 1 give
 	// the generator's own u-coordinate back, e = +-2 the doubling, e = 0 cannot occur for the prime-order base point but
@@ -453,6 +459,14 @@ func main() {
 	var cases []Case
 	for i := 0; i < r.Pick(6, 60); i++ {
 		ks = append(ks, mon.Bytes(rng, 32))
+	}
+	// group-structured scalars: through every base-point entry point, and against a handful of peer values (the base
+	// point as an ordinary argument, two catalogue entries, a PRNG value) rather than the whole catalogue
+	for gi, k := range groupScalars() {
+		nine := make([]byte, 32)
+		nine[0] = 9
+		cases = append(cases, Case{Kind: "base", K: mon.Hex(k)}, Case{Kind: "pair", K: mon.Hex(k), U: mon.Hex(nine)},
+			Case{Kind: "pair", K: mon.Hex(k), U: mon.Hex(us[gi%len(us)])}, Case{Kind: "pair", K: mon.Hex(k), U: mon.Hex(mon.Bytes(rng, 32))})
 	}
 	nrand := r.Pick(20, 400)
 	stride := r.Pick(2, 1)
